@@ -78,6 +78,7 @@ def main():
     t0 = time.time()
     if spec.custom: return spec.custom(pid, tier, seed, a)
     jobs = spec.jobs(tier)
+    seen_names = set(); jobs = [j for j in jobs if not (j.name in seen_names or seen_names.add(j.name))]   # one job per name: two jobs must never share a work directory
     if a.only: jobs = [j for j in jobs if a.only in j.name]
     if a.list:
         for j in jobs: print(j.name)
